@@ -32,9 +32,9 @@ CanD(G, tr, hv, hd, n, path) ==
              THEN Simple(tr, r.tk)
         ELSE IF r.tk = "Pointer" THEN
           LET c == G.nodes[r.inner].canon IN
-          IF TK(G, c) = "Function" THEN FnPtr(tr, G.nodes[c].fnptr_derivable)
+          IF TK(G, c) = "Function" THEN FnPtr(tr, FnPtrOk(G.nodes[c]))
           ELSE IF tr = "derive_default" THEN "No" ELSE "Yes"
-        ELSE IF r.tk = "Function" THEN FnPtr(tr, r.fnptr_derivable)
+        ELSE IF r.tk = "Function" THEN FnPtr(tr, FnPtrOk(r))
         ELSE IF r.tk = "Array" THEN
           IF Sub(r.inner) # "Yes" THEN "No"
           ELSE IF r.len = 0 /\ ~CanDeriveIncompleteArray(tr) THEN "No"
